@@ -476,6 +476,16 @@ func (u *Unit) bindLocals(ctx *EvalCtx, st *State, at *ssa.BasicBlock) {
 		if len(inMem) == 1 {
 			live = inMem
 		}
+		if len(live) > 1 && st.dbg != nil {
+			// several SSA values of one source variable are alive: the one last seen on this path
+			if last, ok := st.dbg[name]; ok {
+				for _, v := range live {
+					if v == last {
+						live = []ssa.Value{v}
+					}
+				}
+			}
+		}
 		if len(live) != 1 {
 			continue
 		}
@@ -904,6 +914,7 @@ func (u *Unit) execReturn(st *State, x *ssa.Return) {
 	}
 	u.ghostAt(st, x.Block(), "return")
 	u.checkLockBalance(st, x.Pos())
+	u.ghostFrameAtReturn(st, x)
 	if u.contract == nil {
 		return
 	}
@@ -948,6 +959,30 @@ func (u *Unit) execReturn(st *State, x *ssa.Return) {
 	}
 	u.frameAtReturn(st, x, mkctx)
 	u.cover(st, x.Pos(), "return is reachable")
+}
+
+// ghostFrameAtReturn: a ghost global that the contract does not list under `ghostwrites` has its entry value
+// at every return (callers rely on it: they keep the ghost state across the call).
+func (u *Unit) ghostFrameAtReturn(st *State, x *ssa.Return) {
+	for _, gv := range u.eng.contracts.GhostGlobals {
+		if u.contract != nil {
+			listed := false
+			for _, g := range u.contract.GhostWrites {
+				if g == gv.Name {
+					listed = true
+				}
+			}
+			if listed {
+				continue
+			}
+		}
+		cur, ok1 := st.ghost[gv.Name]
+		ent, ok2 := u.entry.ghost[gv.Name]
+		if !ok1 || !ok2 || cur.S == ent.S {
+			continue
+		}
+		u.oblige(st, "ghostframe", x.Pos(), eq(cur, ent), "ghost state "+gv.Name+" is not listed under ghostwrites and is unchanged", nil)
+	}
 }
 
 // typeFrameCheck discharges a `preserves P` clause by a type argument: no value whose type can reach a
